@@ -39,23 +39,41 @@ def msgKeys (key : M → κ) : List (PEv M) → List κ
   | .msg m :: es => key m :: msgKeys key es
 
 /-- invariant of the pair while nothing has been handed over yet -/
-structure PairInv (key : M → κ) (K : List κ) (k : Nat) (seen : List κ) (registered : Bool)
+structure PairInv (P : M → Prop) (key : M → κ) (K : List κ) (k : Nat) (seen : List κ) (registered : Bool)
     (st : Pair M × Option (List M)) : Prop where
   open_ : st.2 = none → (st.1.buf.map key).Nodup ∧ (∀ x, x ∈ st.1.buf.map key ↔ x ∈ seen) ∧
-      (registered = true → st.1.req = some k ∧ st.1.buf.length < k) ∧ (registered = false → st.1.req = none)
-  fired : ∀ b, st.2 = some b → (b.map key).Nodup ∧ b.length = k ∧ (∀ x ∈ b.map key, x ∈ K) ∧ registered = true
+      (registered = true → st.1.req = some k ∧ st.1.buf.length < k) ∧ (registered = false → st.1.req = none) ∧
+      (∀ x ∈ st.1.buf, P x)
+  fired : ∀ b, st.2 = some b → (b.map key).Nodup ∧ b.length = k ∧ (∀ x ∈ b.map key, x ∈ K) ∧ registered = true ∧
+      (∀ x ∈ b, P x) ∧ st.1.req = none
 
 theorem nodup_subset_length_le {l K : List κ} (hl : l.Nodup) (hsub : ∀ x ∈ l, x ∈ K) : l.length ≤ K.length :=
   (List.subperm_of_subset hl hsub).length_le
 
-theorem pair_step_inv (key : M → κ) (K : List κ) (k : Nat) (hK : K.length = k) (seen : List κ) (registered : Bool)
+/-- a duplicate-free list inside `K` of the length of the duplicate-free `K` contains all of `K` -/
+theorem nodup_full {l K : List κ} (hl : l.Nodup) (hsub : ∀ x ∈ l, x ∈ K) (hlen : l.length = K.length) :
+    ∀ x ∈ K, x ∈ l := by
+  intro x hx
+  by_contra hnx
+  have hsub' : ∀ y ∈ l, y ∈ K.erase x := by
+    intro y hy
+    have hne : y ≠ x := by intro he; rw [he] at hy; exact hnx hy
+    exact (List.mem_erase_of_ne hne).2 (hsub y hy)
+  have := nodup_subset_length_le hl hsub'
+  rw [hlen, List.length_erase_of_mem hx] at this
+  have hpos : 0 < K.length := List.length_pos_of_mem hx
+  omega
+
+theorem pair_step_inv (P : M → Prop) (dup : M → M → Bool) (key : M → κ)
+    (hdup : ∀ a b, P a → P b → dup a b = decide (key a = key b))
+    (K : List κ) (k : Nat) (hK : K.length = k) (seen : List κ) (registered : Bool)
     (st : Pair M × Option (List M)) (hseen : ∀ x ∈ seen, x ∈ K)
-    (h : PairInv key K k seen registered st) (e : PEv M)
-    (he : match e with | .reg k' => k' = k ∧ registered = false | .msg m => key m ∈ K) :
-    PairInv key K k (match e with | .reg _ => seen | .msg m => key m :: seen)
-      (match e with | .reg _ => true | .msg _ => registered) (pairStep (fun a b => decide (key a = key b)) st e) := by
+    (h : PairInv P key K k seen registered st) (e : PEv M)
+    (he : match e with | .reg k' => k' = k ∧ registered = false | .msg m => key m ∈ K ∧ P m) :
+    PairInv P key K k (match e with | .reg _ => seen | .msg m => key m :: seen)
+      (match e with | .reg _ => true | .msg _ => registered) (pairStep dup st e) := by
   rcases hbox : st.2 with _ | b0
-  · obtain ⟨hnd, hmem, hreg, hnreg⟩ := h.open_ hbox
+  · obtain ⟨hnd, hmem, hreg, hnreg, hP⟩ := h.open_ hbox
     have hlen_le : st.1.buf.length ≤ k := by
       have := nodup_subset_length_le hnd (fun x hx => hseen x ((hmem x).1 hx))
       simpa [hK] using this
@@ -64,39 +82,40 @@ theorem pair_step_inv (key : M → κ) (K : List κ) (k : Nat) (hK : K.length = 
       obtain ⟨hk', hr⟩ := he
       subst hk'
       by_cases hl : st.1.buf.length = k'
-      · have hstep : pairStep (fun a b => decide (key a = key b)) st (.reg k') = (⟨[], none⟩, some st.1.buf) := by
+      · have hstep : pairStep dup st (.reg k') = (⟨[], none⟩, some st.1.buf) := by
           simp [pairStep, handleRequest, hbox, orElse, hl]
         rw [hstep]
         refine ⟨fun h => (by cases h), fun b hb => ?_⟩
         injection hb with hb; subst hb
-        exact ⟨hnd, hl, fun x hx => hseen x ((hmem x).1 hx), rfl⟩
-      · have hstep : pairStep (fun a b => decide (key a = key b)) st (.reg k') = (⟨st.1.buf, some k'⟩, none) := by
+        exact ⟨hnd, hl, fun x hx => hseen x ((hmem x).1 hx), rfl, hP, rfl⟩
+      · have hstep : pairStep dup st (.reg k') = (⟨st.1.buf, some k'⟩, none) := by
           simp [pairStep, handleRequest, hbox, orElse, hl]
         rw [hstep]
-        refine ⟨fun _ => ⟨hnd, hmem, fun _ => ⟨rfl, (by show st.1.buf.length < k'; omega)⟩, fun h => (by cases h)⟩,
+        refine ⟨fun _ => ⟨hnd, hmem, fun _ => ⟨rfl, (by show st.1.buf.length < k'; omega)⟩, fun h => (by cases h), hP⟩,
           fun b hb => (by cases hb)⟩
     | msg m =>
+      obtain ⟨hmK, hmP⟩ := he
+      have hany : (st.1.buf.any fun x => dup x m) = true ↔ key m ∈ st.1.buf.map key := by
+        simp only [List.any_eq_true, List.mem_map]
+        constructor
+        · rintro ⟨x, hx, hd⟩
+          rw [hdup x m (hP x hx) hmP] at hd
+          exact ⟨x, hx, by simpa using hd⟩
+        · rintro ⟨x, hx, hxe⟩
+          exact ⟨x, hx, by rw [hdup x m (hP x hx) hmP]; simpa using hxe⟩
       simp only [pairStep, handlePeerMsg, hbox, orElse]
-      by_cases hdup : (st.1.buf.any fun x => decide (key x = key m)) = true
-      · simp only [hdup, if_true]
-        have hin : key m ∈ st.1.buf.map key := by
-          simp only [List.any_eq_true, decide_eq_true_eq] at hdup
-          obtain ⟨x, hx, hxe⟩ := hdup
-          exact List.mem_map.2 ⟨x, hx, hxe⟩
-        refine ⟨fun _ => ⟨hnd, fun x => ?_, hreg, hnreg⟩, fun b hb => (by cases hb)⟩
+      by_cases hdupm : (st.1.buf.any fun x => dup x m) = true
+      · simp only [hdupm, if_true]
+        have hin := hany.1 hdupm
+        refine ⟨fun _ => ⟨hnd, fun x => ?_, hreg, hnreg, hP⟩, fun b hb => (by cases hb)⟩
         constructor
         · intro hx; exact List.mem_cons_of_mem _ ((hmem x).1 hx)
         · intro hx
           rcases List.mem_cons.1 hx with hx | hx
           · rw [hx]; exact hin
           · exact (hmem x).2 hx
-      · simp only [hdup, if_false, Bool.false_eq_true]
-        have hnin : key m ∉ st.1.buf.map key := by
-          intro hin
-          apply hdup
-          obtain ⟨x, hx, hxe⟩ := List.mem_map.1 hin
-          simp only [List.any_eq_true, decide_eq_true_eq]
-          exact ⟨x, hx, hxe⟩
+      · simp only [hdupm, if_false, Bool.false_eq_true]
+        have hnin : key m ∉ st.1.buf.map key := fun hin => hdupm (hany.2 hin)
         have hnd' : ((st.1.buf ++ [m]).map key).Nodup := by
           rw [List.map_append, List.map_singleton]
           exact List.Nodup.append hnd (List.nodup_singleton _) (by
@@ -105,15 +124,20 @@ theorem pair_step_inv (key : M → κ) (K : List κ) (k : Nat) (hK : K.length = 
           intro x
           simp only [List.map_append, List.map_singleton, List.mem_append, List.mem_singleton, List.mem_cons]
           rw [hmem x]; tauto
+        have hP' : ∀ x ∈ st.1.buf ++ [m], P x := by
+          intro x hx
+          rcases List.mem_append.1 hx with hx | hx
+          · exact hP x hx
+          · simp only [List.mem_singleton] at hx; rw [hx]; exact hmP
         have hlen' : (st.1.buf ++ [m]).length ≤ k := by
           have := nodup_subset_length_le hnd' (fun x hx => by
             rcases List.mem_cons.1 ((hmem' x).1 hx) with h | h
-            · rw [h]; exact he
+            · rw [h]; exact hmK
             · exact hseen x h)
           simpa [hK] using this
         rcases hq : st.1.req with _ | kk
         · simp only
-          refine ⟨fun _ => ⟨hnd', hmem', fun hr => ?_, fun _ => rfl⟩, fun b hb => (by cases hb)⟩
+          refine ⟨fun _ => ⟨hnd', hmem', fun hr => ?_, fun _ => rfl, hP'⟩, fun b hb => (by cases hb)⟩
           have := (hreg hr).1; rw [hq] at this; cases this
         · simp only
           have hregd : registered = true := by
@@ -126,39 +150,46 @@ theorem pair_step_inv (key : M → κ) (K : List κ) (k : Nat) (hK : K.length = 
           · simp only [hfire, if_true]
             refine ⟨fun h => (by cases h), fun b hb => ?_⟩
             injection hb with hb; subst hb
-            refine ⟨hnd', hfire, fun x hx => ?_, hregd⟩
+            refine ⟨hnd', hfire, fun x hx => ?_, hregd, hP', rfl⟩
             rcases List.mem_cons.1 ((hmem' x).1 hx) with h | h
-            · rw [h]; exact he
+            · rw [h]; exact hmK
             · exact hseen x h
           · simp only [hfire, if_false]
             refine ⟨fun _ => ⟨hnd', hmem', fun _ => ⟨rfl, (by show (st.1.buf ++ [m]).length < kk; omega)⟩,
-              fun h => (by rw [hregd] at h; cases h)⟩, fun b hb => (by cases hb)⟩
-  · -- already handed over: the reply channel keeps the first batch
-    obtain ⟨h1, h2, h3, h4⟩ := h.fired b0 hbox
-    have hkeep : (pairStep (fun a b => decide (key a = key b)) st e).2 = some b0 := by
-      cases e <;> simp [pairStep, hbox, orElse]
-    refine ⟨fun h => (by rw [hkeep] at h; cases h), fun b hb => ?_⟩
-    rw [hkeep] at hb; injection hb with hb; subst hb
-    refine ⟨h1, h2, h3, ?_⟩
+              fun h => (by rw [hregd] at h; cases h), hP'⟩, fun b hb => (by cases hb)⟩
+  · -- already handed over: the reply channel keeps the first batch, no request is registered any more
+    obtain ⟨h1, h2, h3, h4, h5, h6⟩ := h.fired b0 hbox
+    have hkeep : (pairStep dup st e).2 = some b0 ∧ (pairStep dup st e).1.req = none := by
+      cases e with
+      | reg k' => rw [h4] at he; exact absurd he.2 (by simp)
+      | msg m =>
+        simp only [pairStep, hbox, orElse, handlePeerMsg]
+        by_cases hd : (st.1.buf.any fun x => dup x m) = true
+        · simp [hd, h6]
+        · simp [hd, h6]
+    refine ⟨fun h => (by rw [hkeep.1] at h; cases h), fun b hb => ?_⟩
+    rw [hkeep.1] at hb; injection hb with hb; subst hb
+    refine ⟨h1, h2, h3, ?_, h5, hkeep.2⟩
     cases e <;> simp [h4]
 
 /-- the event list is admissible from a state that is (not) registered: every message key is in `K`,
 a registration asks for `k` messages and happens only while unregistered -/
-def OkEvs (key : M → κ) (K : List κ) (k : Nat) : Bool → List (PEv M) → Prop
+def OkEvs (P : M → Prop) (key : M → κ) (K : List κ) (k : Nat) : Bool → List (PEv M) → Prop
   | _, [] => True
-  | r, .reg k' :: es => k' = k ∧ r = false ∧ OkEvs key K k true es
-  | r, .msg m :: es => key m ∈ K ∧ OkEvs key K k r es
+  | r, .reg k' :: es => k' = k ∧ r = false ∧ OkEvs P key K k true es
+  | r, .msg m :: es => (key m ∈ K ∧ P m) ∧ OkEvs P key K k r es
 
 def endsRegistered : Bool → List (PEv M) → Bool
   | r, [] => r
   | _, .reg _ :: es => endsRegistered true es
   | r, .msg _ :: es => endsRegistered r es
 
-theorem pair_run_inv (key : M → κ) (K : List κ) (k : Nat) (hK : K.length = k) :
+theorem pair_run_inv (P : M → Prop) (dup : M → M → Bool) (key : M → κ)
+    (hdup : ∀ a b, P a → P b → dup a b = decide (key a = key b)) (K : List κ) (k : Nat) (hK : K.length = k) :
     ∀ (evs : List (PEv M)) (seen : List κ) (registered : Bool) (st : Pair M × Option (List M)),
-      (∀ x ∈ seen, x ∈ K) → PairInv key K k seen registered st → OkEvs key K k registered evs →
-      PairInv key K k ((msgKeys key evs).reverse ++ seen) (endsRegistered registered evs)
-        (evs.foldl (pairStep (fun a b => decide (key a = key b))) st) := by
+      (∀ x ∈ seen, x ∈ K) → PairInv P key K k seen registered st → OkEvs P key K k registered evs →
+      PairInv P key K k ((msgKeys key evs).reverse ++ seen) (endsRegistered registered evs)
+        (evs.foldl (pairStep dup) st) := by
   intro evs
   induction evs with
   | nil => intro seen registered st _ h _; simpa [msgKeys, endsRegistered] using h
@@ -167,54 +198,44 @@ theorem pair_run_inv (key : M → κ) (K : List κ) (k : Nat) (hK : K.length = k
     cases e with
     | reg k' =>
       obtain ⟨hk', hr, hrest⟩ := hok
-      have := pair_step_inv key K k hK seen registered st hseen h (.reg k') ⟨hk', hr⟩
+      have := pair_step_inv P dup key hdup K k hK seen registered st hseen h (.reg k') ⟨hk', hr⟩
       simp only at this
       have := ih seen true _ hseen this hrest
       simpa [msgKeys, endsRegistered, List.foldl_cons] using this
     | msg m =>
       obtain ⟨hm, hrest⟩ := hok
-      have := pair_step_inv key K k hK seen registered st hseen h (.msg m) hm
+      have := pair_step_inv P dup key hdup K k hK seen registered st hseen h (.msg m) hm
       simp only at this
       have := ih (key m :: seen) registered _ (by
         intro x hx; rcases List.mem_cons.1 hx with hx | hx
-        · rw [hx]; exact hm
+        · rw [hx]; exact hm.1
         · exact hseen x hx) this hrest
       simpa [msgKeys, endsRegistered, List.foldl_cons, List.reverse_cons, List.append_assoc] using this
 
 /-- **the request fires with one message per key** once it is registered and every key has arrived -/
-theorem pair_complete (key : M → κ) (K : List κ) (hKnd : K.Nodup) (evs : List (PEv M))
-    (hok : OkEvs key K K.length false evs) (hreg : endsRegistered false evs = true)
+theorem pair_complete (P : M → Prop) (dup : M → M → Bool) (key : M → κ)
+    (hdup : ∀ a b, P a → P b → dup a b = decide (key a = key b))
+    (K : List κ) (hKnd : K.Nodup) (evs : List (PEv M))
+    (hok : OkEvs P key K K.length false evs) (hreg : endsRegistered false evs = true)
     (hall : ∀ x ∈ K, x ∈ msgKeys key evs) :
-    ∃ b, (pairRun (fun a b => decide (key a = key b)) evs).2 = some b ∧ (b.map key).Nodup ∧
-      b.length = K.length ∧ (∀ x ∈ b.map key, x ∈ K) ∧ (∀ x ∈ K, x ∈ b.map key) := by
-  have h0 : PairInv key K K.length [] false ((⟨[], none⟩ : Pair M), (none : Option (List M))) := by
-    refine ⟨fun _ => ⟨by simp, by simp, fun h => (by cases h), fun _ => rfl⟩, fun b hb => (by cases hb)⟩
-  have hinv := pair_run_inv key K K.length rfl evs [] false _ (by simp) h0 hok
+    ∃ b, (pairRun dup evs).2 = some b ∧ (b.map key).Nodup ∧
+      b.length = K.length ∧ (∀ x ∈ b.map key, x ∈ K) ∧ (∀ x ∈ K, x ∈ b.map key) ∧ (∀ x ∈ b, P x) := by
+  have h0 : PairInv P key K K.length [] false ((⟨[], none⟩ : Pair M), (none : Option (List M))) := by
+    refine ⟨fun _ => ⟨by simp, by simp, fun h => (by cases h), fun _ => rfl, by simp⟩, fun b hb => (by cases hb)⟩
+  have hinv := pair_run_inv P dup key hdup K K.length rfl evs [] false _ (by simp) h0 hok
   rw [hreg] at hinv
   simp only [List.append_nil] at hinv
-  rcases hbox : (pairRun (fun a b => decide (key a = key b)) evs).2 with _ | b
+  rcases hbox : (pairRun dup evs).2 with _ | b
   · exfalso
-    obtain ⟨hnd, hmem, hr, _⟩ := hinv.open_ hbox
+    obtain ⟨hnd, hmem, hr, _, _⟩ := hinv.open_ hbox
     have hlt := (hr rfl).2
-    have hsub : ∀ x ∈ K, x ∈ (pairRun (fun a b => decide (key a = key b)) evs).1.buf.map key := by
+    have hsub : ∀ x ∈ K, x ∈ (pairRun dup evs).1.buf.map key := by
       intro x hx; exact (hmem x).2 (List.mem_reverse.2 (hall x hx))
     have := nodup_subset_length_le hKnd hsub
     simp only [List.length_map] at this
     unfold pairRun at this hlt
     omega
-  · obtain ⟨h1, h2, h3, _⟩ := hinv.fired b hbox
-    refine ⟨b, rfl, h1, h2, h3, ?_⟩
-    -- nodup, same length, contained ⇒ equal as sets
-    intro x hx
-    by_contra hnx
-    have hsub : ∀ y ∈ b.map key, y ∈ K.erase x := by
-      intro y hy
-      have hyK := h3 y hy
-      have hne : y ≠ x := by intro he; rw [he] at hy; exact hnx hy
-      exact (List.mem_erase_of_ne hne).2 hyK
-    have := nodup_subset_length_le h1 hsub
-    rw [List.length_map, h2, List.length_erase_of_mem hx] at this
-    have hpos : 0 < K.length := List.length_pos_of_mem hx
-    omega
+  · obtain ⟨h1, h2, h3, _, h5, _⟩ := hinv.fired b hbox
+    exact ⟨b, rfl, h1, h2, h3, nodup_full h1 h3 (by rw [List.length_map, h2]), h5⟩
 
 end Dos.Dkg
